@@ -23,13 +23,61 @@ func init() {
 
 // bwsRoles: the unexported state of BufferedWriteSyncer, found by what each field is (type, who assigns it, who closes
 // it) rather than by what it is called.
+// bwsState: one state of the syncer's life cycle and what the fields that record it hold in that state.
+type bwsState struct {
+	name   string
+	fields map[string]int64
+}
+
 type bwsRoles struct {
+	// life: the life cycle unstarted → running → stopped, recorded either by two booleans (initialised, stopped) or by
+	// one field of an integer type with a constant per state; latchField/latchVal: the store that records "stopped"
+	life       []bwsState
+	lifeFields []string
+	latchField string
+	latchVal   int64
 	mu, writer, ticker, stop, done, initialized, stopped string
 	initFn, loop                                         *ssa.Function
 	loopGo                                               *ssa.Go
 }
 
 var bwsR bwsRoles
+
+// state returns the named life-cycle state.
+func (r bwsRoles) state(name string) bwsState {
+	for _, st := range r.life {
+		if st.name == name {
+			return st
+		}
+	}
+	return bwsState{name: name}
+}
+
+// initFields: the state as seed for a path exploration of a method whose receiver is recv.
+func (s bwsState) initFields(recv ssa.Value) []FieldVal {
+	var out []FieldVal
+	var ks []string
+	for f := range s.fields {
+		ks = append(ks, f)
+	}
+	sort.Strings(ks)
+	for _, f := range ks {
+		out = append(out, FieldVal{Obj: recv, Field: f, Val: s.fields[f]})
+	}
+	return out
+}
+
+// conc: the same for explorations that fix values by their rendering.
+func (s bwsState) conc(recvName string) func(string) (int64, bool) {
+	return func(d string) (int64, bool) {
+		for f, v := range s.fields {
+			if d == recvName+"."+f {
+				return v, true
+			}
+		}
+		return 0, false
+	}
+}
 
 // top: the syncer's own field a (possibly nested) state field lives in
 func top(path string) string {
@@ -40,7 +88,11 @@ func top(path string) string {
 }
 
 func (r bwsRoles) guarded() map[string]bool {
-	return map[string]bool{top(r.initialized): true, top(r.stopped): true, top(r.writer): true, top(r.ticker): true, top(r.stop): true, top(r.done): true, "Clock": true}
+	m := map[string]bool{top(r.writer): true, top(r.ticker): true, top(r.stop): true, top(r.done): true, "Clock": true}
+	for _, f := range r.lifeFields {
+		m[top(f)] = true
+	}
+	return m
 }
 
 // loopArg: what a value of the flush loop stands for - for a parameter of the loop, the argument the go statement that
@@ -85,7 +137,7 @@ func discoverBWS(c *Ctx, bws *types.Named) (r bwsRoles, ok bool) {
 			}
 		}
 	}
-	var chans, bools []cand
+	var chans, bools, enums []cand
 	var writer cand
 	for _, cd := range cands {
 		switch TypeName(cd.typ) {
@@ -102,6 +154,8 @@ func discoverBWS(c *Ctx, bws *types.Named) (r bwsRoles, ok bool) {
 			case *types.Basic:
 				if t.Kind() == types.Bool {
 					bools = append(bools, cd)
+				} else if n, isN := types.Unalias(cd.typ).(*types.Named); isN && t.Info()&types.IsInteger != 0 && n.Obj().Pkg() != nil && n.Obj().Pkg().Path() == CorePath {
+					enums = append(enums, cd) // a state recorded as one of the constants of a type of its own
 				}
 			}
 		}
@@ -162,7 +216,49 @@ func discoverBWS(c *Ctx, bws *types.Named) (r bwsRoles, ok bool) {
 			r.stopped = cd.path
 		}
 	}
-	ok = r.mu != "" && r.writer != "" && r.ticker != "" && r.stop != "" && r.done != "" && r.initialized != "" && r.stopped != "" && r.initFn != nil && r.loop != nil && len(chans) == 2 && len(bools) == 2
+	lifeOK := false
+	switch {
+	case len(bools) == 2 && r.initialized != "" && r.stopped != "":
+		r.life = []bwsState{
+			{"unstarted", map[string]int64{r.initialized: 0, r.stopped: 0}},
+			{"running", map[string]int64{r.initialized: 1, r.stopped: 0}},
+			{"stopped", map[string]int64{r.initialized: 1, r.stopped: 1}},
+		}
+		r.lifeFields = []string{r.initialized, r.stopped}
+		r.latchField, r.latchVal = r.stopped, 1
+		lifeOK = true
+	case len(bools) == 0 && len(enums) == 1 && r.initFn != nil:
+		// unstarted: the zero value; running: the constant the initialiser stores; stopped: the other constant stored
+		cd := enums[0]
+		running, stoppedV := int64(-1), int64(-1)
+		for _, a := range c.FieldAccesses(cd.owner, map[string]bool{cd.name: true}) {
+			st, isSt := a.Instr.(*ssa.Store)
+			if !a.Write || !isSt {
+				continue
+			}
+			k, isC := ConstInt(st.Val)
+			if !isC {
+				running, stoppedV = -2, -2
+				break
+			}
+			if a.Fn == r.initFn {
+				running = k
+			} else if k != 0 {
+				stoppedV = k
+			}
+		}
+		if running > 0 && stoppedV > 0 && running != stoppedV {
+			r.life = []bwsState{
+				{"unstarted", map[string]int64{cd.path: 0}},
+				{"running", map[string]int64{cd.path: running}},
+				{"stopped", map[string]int64{cd.path: stoppedV}},
+			}
+			r.lifeFields = []string{cd.path}
+			r.latchField, r.latchVal = cd.path, stoppedV
+			lifeOK = true
+		}
+	}
+	ok = r.mu != "" && r.writer != "" && r.ticker != "" && r.stop != "" && r.done != "" && lifeOK && r.initFn != nil && r.loop != nil && len(chans) == 2
 	return r, ok
 }
 
@@ -318,8 +414,43 @@ func c12Rules(c *Ctx, r1, r2, r3, r4, r5 string) {
 			h := MustHeld(cl.Parent(), nil)
 			m := Desc(Args(cl)[0]) + "." + roles.mu
 			ok := h[cl][m] == 1
-			notInit := HasAtom(Guards(cl), func(s string) bool { return s == "!"+Desc(Args(cl)[0])+"."+roles.initialized })
-			c.Check(ok && notInit, r1, FuncKey(cl.Parent()), "initialize-called-locked", cl.Pos(), "initialize() is called with %s held and only under !initialized (lockset %s, guards %v)", m, h[cl], AtomStrings(Guards(cl)))
+			// by exploring the caller in each life-cycle state: the initialiser runs exactly when the syncer was not
+			// started yet
+			notInit := true
+			var seen []string
+			caller := cl.Parent()
+			for caller.Parent() != nil {
+				caller = caller.Parent()
+			}
+			if len(caller.Params) == 0 {
+				notInit = false
+			} else {
+				for _, ls := range roles.life {
+					called := 0
+					seqs, trunc := ConcPaths(caller, ConcCfg{
+						InitFields: ls.initFields(caller.Params[0]), Conc: ls.conc(caller.Params[0].Name()),
+						Inline: func(h *ssa.Function) bool { return h != initFn },
+						Event: func(in ssa.Instruction, st *ConcState) string {
+							if x, isC := in.(*ssa.Call); isC && x.Call.StaticCallee() == initFn {
+								called++
+								return "init"
+							}
+							return ""
+						},
+					})
+					withInit := 0
+					for _, sq := range seqs {
+						if strings.Contains(sq, "init") {
+							withInit++
+						}
+					}
+					seen = append(seen, ls.name+":"+itoa(withInit)+"/"+itoa(len(seqs)))
+					if trunc || len(seqs) == 0 || (ls.name == "unstarted") != (withInit == len(seqs)) || ls.name != "unstarted" && withInit != 0 {
+						notInit = false
+					}
+				}
+			}
+			c.Check(ok && notInit, r1, FuncKey(cl.Parent()), "initialize-called-locked", cl.Pos(), "initialize() is called with %s held (lockset %s) and, exploring the caller in each life-cycle state, on every path of the unstarted state and on none of the others (paths with the call / all paths: %v)", m, h[cl], seen)
 			allHeld = allHeld && ok
 		}
 		if allHeld {
@@ -365,19 +496,14 @@ func c12Rules(c *Ctx, r1, r2, r3, r4, r5 string) {
 			}
 			return ""
 		}
-		for _, init := range []int64{1, 0} {
-			iv := init
+		for _, ls := range []bwsState{roles.state("running"), roles.state("unstarted")} {
+			iv := int64(1)
 			slot := "initialized"
-			if iv == 0 {
-				slot = "not-initialized"
+			if ls.name == "unstarted" {
+				iv, slot = 0, "not-initialized"
 			}
 			seqs, trunc := ConcPaths(sync, ConcCfg{
-				Conc: func(d string) (int64, bool) {
-					if d == recvN+"."+roles.initialized {
-						return iv, true
-					}
-					return 0, false
-				},
+				InitFields: ls.initFields(sync.Params[0]), Conc: ls.conc(recvN),
 				Event: func(in ssa.Instruction, st *ConcState) string {
 					switch x := in.(type) {
 					case *ssa.Call:
@@ -651,19 +777,14 @@ func c12Stop(c *Ctx, rule string, roles bwsRoles, stop *ssa.Function) {
 	}
 	nOK := 0
 	var bad []string
-	for _, init := range []int64{0, 1} {
-		for _, stopped := range []int64{0, 1} {
+	for _, ls := range roles.life {
+		{
+			init := int64(1)
+			if ls.name == "unstarted" {
+				init = 0
+			}
 			seqs, trunc := ConcPaths(stop, ConcCfg{
-				InitFields: []FieldVal{{Obj: recv, Field: roles.initialized, Val: init}, {Obj: recv, Field: roles.stopped, Val: stopped}},
-				Conc: func(d string) (int64, bool) {
-					switch d {
-					case rn + "." + roles.initialized:
-						return init, true
-					case rn + "." + roles.stopped:
-						return stopped, true
-					}
-					return 0, false
-				},
+				InitFields: ls.initFields(recv), Conc: ls.conc(rn),
 				Inline: func(h *ssa.Function) bool { return h.Name() != "Sync" },
 				Branch: func(cond ssa.Value, taken bool, st *ConcState) string {
 					// a nil test of the done channel: it is created together with the initialised flag (R12.1:
@@ -715,8 +836,8 @@ func c12Stop(c *Ctx, rule string, roles bwsRoles, stop *ssa.Function) {
 				Event: func(in ssa.Instruction, st *ConcState) string {
 					switch x := in.(type) {
 					case *ssa.Store:
-						if fa, ok := x.Addr.(*ssa.FieldAddr); ok && fieldOf(st, fa) == roles.stopped {
-							if k, known := st.Int(x.Val); known && k == 1 {
+						if fa, ok := x.Addr.(*ssa.FieldAddr); ok && fieldOf(st, fa) == roles.latchField {
+							if k, known := st.Int(x.Val); known && k == roles.latchVal {
 								return "latch"
 							}
 							return "stopped=?"
@@ -754,7 +875,7 @@ func c12Stop(c *Ctx, rule string, roles bwsRoles, stop *ssa.Function) {
 					return ""
 				},
 			})
-			tag := "initialised=" + itoa(int(init)) + " stopped=" + itoa(int(stopped)) + ": "
+			tag := ls.name + ": "
 			if trunc || len(seqs) == 0 {
 				c.Und(rule, name, "stop-protocol", stop.Pos(), "path exploration incomplete (%s)", tag)
 				return
@@ -765,7 +886,7 @@ func c12Stop(c *Ctx, rule string, roles bwsRoles, stop *ssa.Function) {
 				}
 				sq = strings.ReplaceAll(sq, "done-is-nil ; ", "")
 				ok := false
-				if init == 1 && stopped == 0 {
+				if ls.name == "running" {
 					ok = sq == "lock ; latch ; ticker.Stop ; close("+roles.stop+") ; unlock ; recv("+roles.done+") ; sync ; ret(err)" ||
 						sq == "lock ; latch ; close("+roles.stop+") ; ticker.Stop ; unlock ; recv("+roles.done+") ; sync ; ret(err)"
 				} else {
@@ -779,7 +900,7 @@ func c12Stop(c *Ctx, rule string, roles bwsRoles, stop *ssa.Function) {
 			}
 		}
 	}
-	c.Check(len(bad) == 0 && nOK >= 4, rule, name, "stop-protocol", stop.Pos(), "for each combination of the initialised/stopped flags: not running or already stopped → lock, unlock, return nil (no wait, no close); running → lock, latch stopped, stop the ticker and close the stop channel, unlock, then wait for the flush loop with no lock held, then a final Sync whose result is returned: %v", bad)
+	c.Check(len(bad) == 0 && nOK >= 3, rule, name, "stop-protocol", stop.Pos(), "for each life-cycle state (unstarted, running, stopped): not running or already stopped → lock, unlock, return nil (no wait, no close); running → lock, latch stopped, stop the ticker and close the stop channel, unlock, then wait for the flush loop with no lock held, then a final Sync whose result is returned: %v", bad)
 }
 
 // c12Write: by path exploration of Write (helpers inline; the outcome of Flush forked): every path hands the caller's
@@ -848,12 +969,7 @@ func c12Write(c *Ctx, rule string, roles bwsRoles, write *ssa.Function) {
 		return "", false
 	}
 	seqs, trunc := ConcPaths(write, ConcCfg{
-		Conc: func(d string) (int64, bool) {
-			if d == recv+"."+roles.initialized {
-				return 1, true
-			}
-			return 0, false
-		},
+		InitFields: roles.state("running").initFields(write.Params[0]), Conc: roles.state("running").conc(recv),
 		Fork: func(in ssa.Instruction, st *ConcState) []ConcAlt {
 			if cl, ok := in.(*ssa.Call); ok && IsCallTo(cl, "(*bufio.Writer).Flush") {
 				return []ConcAlt{{Ev: "flush-ok", Nils: map[ssa.Value]bool{cl: true}}, {Ev: "flush-failed", Nils: map[ssa.Value]bool{cl: false}}}
